@@ -16,6 +16,7 @@ CONSTANTS K,        \* counts -K..K for the one-duration operations
           C2Pos,    \* positive counts of the right operand of two-duration operations
           C2Neg,    \* magnitudes of its negative counts
           KM,       \* counts -KM..KM for member / scalar operations
+          KF,       \* numerators -KF..KF of fractional floating-point counts k/2 and k/4 (odd k)
           ScalPos,  \* non-negative scalars
           ScalNeg   \* magnitudes of negative scalars
 
@@ -60,7 +61,12 @@ ASSUME TablesOK == Seq2Set(UOpSeq) = UOps /\ Seq2Set(BOpSeq) = BinOps /\ Seq2Set
                    /\ Seq2Set(UComboSeq) = UCombos /\ Seq2Set(BComboSeq) = BCombos /\ Seq2Set(MRepSeq) = MReps
 
 UOk(i, j, c) ==
-    LET x == UCtx(i, j, c) IN {n \in 1..Len(UTable) : UPreC(UTable[n][1], UTable[n][2], UTable[n][3], c, x)}
+    LET x == UCtx(i, j, c, 0) IN {n \in 1..Len(UTable) : UPreC(UTable[n][1], UTable[n][2], UTable[n][3], c, x)}
+\* fractional count c / 2^ce of a floating-point source (odd numerators only: the others are covered with a smaller ce)
+UOkF(i, j, c, ce) ==
+    IF c % 2 = 0 THEN {}
+    ELSE LET x == UCtx(i, j, W(c), ce) IN
+         {n \in 1..Len(UTable) : UTable[n][2] = "f64" /\ UPreC(UTable[n][1], UTable[n][2], UTable[n][3], W(c), x)}
 BOk(i, j, c1, c2) ==
     LET x == CvX(i, j, c1) y == CvY(i, j, c2) IN
     {n \in 1..Len(BTable) : BinPreC(BTable[n][1], BTable[n][2], BTable[n][3], c1, c2, x, y)}
@@ -72,8 +78,9 @@ MOk(c, k) == {n \in 1..Len(MTable) :
 
 \* the exported input of a state
 Input(s) ==
-    CASE s.kind = "u"  -> [fam |-> "u", i |-> s.i, j |-> s.j, c |-> W(s.c), ok |-> UOk(s.i, s.j, W(s.c))]
-      [] s.kind = "ub" -> [fam |-> "u", i |-> s.i, j |-> s.j, c |-> BigSeq[s.c], ok |-> UOk(s.i, s.j, BigSeq[s.c])]
+    CASE s.kind = "u"  -> [fam |-> "u", i |-> s.i, j |-> s.j, c |-> W(s.c), ce |-> 0, ok |-> UOk(s.i, s.j, W(s.c))]
+      [] s.kind = "ub" -> [fam |-> "u", i |-> s.i, j |-> s.j, c |-> BigSeq[s.c], ce |-> 0, ok |-> UOk(s.i, s.j, BigSeq[s.c])]
+      [] s.kind = "uf" -> [fam |-> "u", i |-> s.i, j |-> s.j, c |-> W(s.c), ce |-> s.c2, ok |-> UOkF(s.i, s.j, s.c, s.c2)]
       [] s.kind = "b"  -> [fam |-> "b", i |-> s.i, j |-> s.j, c |-> W(s.c), c2 |-> W(s.c2), ok |-> BOk(s.i, s.j, W(s.c), W(s.c2))]
       [] s.kind = "bb" -> [fam |-> "b", i |-> s.i, j |-> s.j, c |-> BigSeq[s.c], c2 |-> W(s.c2), ok |-> BOk(s.i, s.j, BigSeq[s.c], W(s.c2))]
       [] s.kind = "m"  -> [fam |-> "m", i |-> s.i, c |-> W(s.c), k |-> s.c2, ok |-> MOk(W(s.c), s.c2)]
@@ -83,6 +90,7 @@ Input(s) ==
 Init ==
     \/ \E i \in 1..NP, j \in 1..NP : st = [kind |-> "u", i |-> i, j |-> j, c |-> -K, c2 |-> 0]
     \/ \E i \in 1..NP, j \in 1..NP : st = [kind |-> "ub", i |-> i, j |-> j, c |-> 1, c2 |-> 0]
+    \/ \E i \in 1..NP, j \in 1..NP, ce \in {1, 2} : st = [kind |-> "uf", i |-> i, j |-> j, c |-> -KF, c2 |-> ce]
     \/ \E i \in 1..NP, j \in 1..NP, c2 \in C2s : st = [kind |-> "b", i |-> i, j |-> j, c |-> -KB, c2 |-> c2]
     \/ \E i \in 1..NP, j \in 1..NP, c2 \in {1, -1} : st = [kind |-> "bb", i |-> i, j |-> j, c |-> 1, c2 |-> c2]
     \/ \E i \in {4, 10}, k \in Scals : st = [kind |-> "m", i |-> i, j |-> i, c |-> -KM, c2 |-> k]
@@ -91,7 +99,8 @@ Init ==
 
 Next ==
     /\ st.kind # "static"
-    /\ st.c < (IF st.kind = "u" THEN K ELSE IF st.kind = "b" THEN KB ELSE IF st.kind = "m" THEN KM ELSE NBig)
+    /\ st.c < (IF st.kind = "u" THEN K ELSE IF st.kind = "b" THEN KB ELSE IF st.kind = "m" THEN KM
+               ELSE IF st.kind = "uf" THEN KF ELSE NBig)
     /\ st' = [st EXCEPT !.c = st.c + 1]
 
 Spec == Init /\ [][Next]_vars
@@ -112,10 +121,12 @@ ASSUME WideSelfTest ==
 
 CW == IF st.kind \in {"ub", "bb", "mb"} THEN BigSeq[st.c] ELSE W(st.c)
 
+CE == IF st.kind = "uf" THEN st.c2 ELSE 0      \* binary exponent of the count (fractional floating-point sources)
+
 RoundingLaws ==
-    st.kind \in {"u", "ub"} =>
+    st.kind \in {"u", "ub", "uf"} =>
         LET a  == Num(st.i, st.j, CW)
-            d  == Den(st.i, st.j)
+            d  == DenE(st.i, st.j, CE)
             dw == WProd(d)
             t  == WTrunc(a, d) f == WFloor(a, d) c == WCeil(a, d) r == RoundW(a, d)
         IN /\ IsTruncOf(t, a, dw) /\ IsFloorOf(f, a, dw) /\ IsCeilOf(c, a, dw) /\ IsRoundOf(r, a, dw)
@@ -132,7 +143,9 @@ RoundingLaws ==
                   /\ WToInt(f) = WToInt(a) \div WToInt(dw)
                   /\ WToInt(c) = -((-WToInt(a)) \div WToInt(dw)))
            \* the identity conversion and the round trip through a finer period are exact
-           /\ (st.i = st.j => t = CW /\ d = <<>> /\ CF(st.i, st.j).n = <<>>)
+           /\ (st.i = st.j /\ CE = 0 => t = CW /\ d = <<>> /\ CF(st.i, st.j).n = <<>>)
+           \* a fractional count k / 2^ce with odd k in the same period: never exact, Floor < Ceil
+           /\ (st.i = st.j /\ CE > 0 /\ st.c % 2 = 1 => c = WSucc(f) /\ ~WExact(a, d))
            /\ (d = <<>> => WTrunc(Num(st.j, st.i, t), Den(st.j, st.i)) = CW)
 
 BinaryLaws ==
@@ -162,9 +175,12 @@ MemberLaws ==
 
 \* the reduced context of the judge decides exactly like the full context used for the selection
 CtxLaw ==
-    (st.kind = "ub" \/ (st.kind = "u" /\ st.c % 6 = 0)) =>       \* every sixth count and all wide ones (cost)
-        \A n \in 1..Len(UTable) :
-            UPre(UTable[n][1], st.i, st.j, UTable[n][2], UTable[n][3], CW) = (n \in UOk(st.i, st.j, CW))
+    /\ (st.kind = "ub" \/ (st.kind = "u" /\ st.c % 6 = 0)) =>       \* every sixth count and all wide ones (cost)
+          \A n \in 1..Len(UTable) :
+              UPre(UTable[n][1], st.i, st.j, UTable[n][2], UTable[n][3], CW, 0) = (n \in UOk(st.i, st.j, CW))
+    /\ (st.kind = "uf" /\ st.c % 6 = 1) =>
+          \A n \in 1..Len(UTable) :
+              UPre(UTable[n][1], st.i, st.j, UTable[n][2], UTable[n][3], CW, CE) = (n \in UOkF(st.i, st.j, st.c, CE))
 
 Laws == RoundingLaws /\ BinaryLaws /\ MemberLaws /\ CtxLaw
 ===========================================================================
